@@ -8,7 +8,12 @@ Decided:
         elements, ``str()``, formatting, same-module helpers, self attributes.  A source reaching a sink must have passed a
         sanitiser of the table below (each with its reason) or be non-string by "name typing" (every declaration of that
         attribute name in mitmproxy/** is int/float/bool/None/Enum/Literal/ClassVar[str] literal).
-  R49.2 the translation tables behind ``strutils.escape_control_characters`` (folded from the module's AST: dict
+  R49.2 ``strutils.escape_control_characters`` is interpreted from its AST (pyint; module-level translation tables folded from the module's
+        statements and bound as globals, ``re`` trusted) on representatives of every combination of character classes - each Cc code point
+        alone and embedded in clean text, every non-empty combination of {C0, TAB/LF/CR, DEL, C1} - with keep_spacing on and off: no
+        output may contain a Cc character other than TAB / LF / CR.  Fast paths, regex pre-checks, helpers or loops around
+        ``str.translate`` are therefore analysed, not refused.  In addition, when the function is still a plain
+        ``return text.translate(<table>)``: the translation tables behind ``strutils.escape_control_characters`` (folded from the module's AST: dict
         comprehension over range(), item assignments, ``copy``, the ``del`` loop, ``str.maketrans``) map every code point of
         Unicode category Cc (U+0000-001F, U+007F, U+0080-009F) - except TAB / LF / CR when ``keep_spacing`` - to a
         non-control character, and the function returns ``text.translate(<one of the two tables>)``.
@@ -34,6 +39,8 @@ from ..selftest import Mutant
 from ._helpers_G import annotation_classes
 from ._helpers_G import AttrTypes
 from ._helpers_G import class_closure
+from ._helpers_G import control_character_domain
+from ._helpers_G import interpret_sanitiser
 from ._helpers_G import expected_markers
 from ._helpers_G import fold_tables
 from ._helpers_G import load_positive
@@ -48,7 +55,8 @@ REG = {
     "folding of the sanitiser's translation table",
     "claim": "every string derived from a hook argument of Dumper that reaches print()/outfp.write() (directly or through echo and other "
     "helpers) passed escape_control_characters / bytes_to_escaped_str / prettify_message(.text) / a numeric formatter, or is non-string by "
-    "declaration; escape_control_characters maps every Cc code point except TAB/LF/CR; prettify_message escapes its text on every path.",
+    "declaration; escape_control_characters (interpreted from its AST on every Cc code point and every combination of character classes, and "
+    "its tables folded) maps every Cc code point except TAB/LF/CR; prettify_message escapes its text on every path.",
     "note": "External callees are assumed to return data derived from their operands only. flow.metadata values are trusted iff every "
     "writer in mitmproxy/** stores an int under that key. Positive example file mitmlint/positive/R49_1.py keeps R49.1 non-vacuous.",
 }
@@ -245,6 +253,25 @@ CC = set(range(0, 32)) | {127} | set(range(128, 160))
 SPACING = {9, 10, 13}
 
 
+def check_escape_semantics(ctx):
+    """escape_control_characters is *interpreted* (pyint) on representatives of every combination of character classes; whatever the function
+    does before / instead of / after ``str.translate`` (fast paths, regex pre-checks, helper functions, loops) is part of what is analysed."""
+    fn = ctx.func(SU, "escape_control_characters")
+    params = [a.arg for a in fn.args.args]
+    ctx.require(params[:2] == ["text", "keep_spacing"], "escape_control_characters signature changed")
+    res, tables = interpret_sanitiser(ctx.model, SU, "escape_control_characters")
+    n_in = len(control_character_domain())
+    for keep, (leaked, example) in res.items():
+        ctx.cells += n_in
+        ranges = _ranges(sorted(leaked))
+        ex = f"escape_control_characters({example[0][:24]!r}, keep_spacing={keep}) == {example[1][:24]!r}" if example else ""
+        ctx.check(not leaked, "R49.2", (SU, "escape_control_characters", fn), f"escape_control_characters(keep_spacing={keep}) lets {ranges} through" if leaked else f"escape_control_characters(keep_spacing={keep})",
+                  f"control characters {ranges} pass through escape_control_characters unchanged for some inputs: {ex} (U+009B is CSI, U+009D OSC, U+001B ESC)",
+                  desc=f"escape_control_characters(keep_spacing={keep}), interpreted on {n_in} inputs (every Cc code point alone / embedded, every combination of C0, TAB-LF-CR, DEL, C1): no control character"
+                       f"{' except TAB/LF/CR' if keep else ''} in any output")
+    return tables
+
+
 def check_escape_table(ctx):
     m = ctx.model
     mod = m.module(SU)
@@ -288,7 +315,6 @@ def check_escape_table(ctx):
         if keep:
             kept = sorted(SPACING - set(t))
             ctx.note(f"R49.2: keep_spacing=True leaves {kept} (TAB/LF/CR) untouched, as the property allows")
-    ctx.expect_instances("R49.2", 4)
 
 
 def _ranges(xs):
@@ -415,7 +441,12 @@ def check(ctx):
         raise AnalysisError(f"R49.1 positive examples: reported lines {sorted(got)}, expected {sorted(want)}; clean sites checked {sorted(clean & checked)} of {sorted(clean)}")
     ctx.note(f"R49.1 positive examples: {len(want)} unescaped sink operands reported, {len(clean)} escaped / symbolic sites silent")
 
-    check_escape_table(ctx)
+    check_escape_semantics(ctx)
+    try:
+        check_escape_table(ctx)
+    except AnalysisError as e:
+        ctx.note(f"R49.2 structural reading of the translation tables not available ({e}); the interpreted sanitiser above is the decision")
+    ctx.expect_instances("R49.2", 2)
     check_prettify(ctx)
 
 
@@ -465,6 +496,12 @@ MUTANTS = [
     _unwrap("table-without-del", "_control_char_trans[127] = ord(\".\")  # 0x2421\n", "", "R49.2", SU),
     _unwrap("table-keeps-escape-as-spacing", "for x in (\"\\r\", \"\\n\", \"\\t\"):\n", "for x in (\"\\r\", \"\\n\", \"\\t\", \"\\x1b\"):\n", "R49.2", SU),
     _unwrap("table-maps-to-bell", "    x: ord(\".\")\n", "    x: 7\n", "R49.2", SU),
+    _unwrap("fast-path-regex-without-c1", "    trans = _control_char_trans_newline if keep_spacing else _control_char_trans\n    return text.translate(trans)",
+            "    if not re.search(r\"[\\x00-\\x1f\\x7f]\", text):\n        return text\n    trans = _control_char_trans_newline if keep_spacing else _control_char_trans\n    return text.translate(trans)", "R49.2", SU),
+    _unwrap("fast-path-ascii-returned-unchanged", "    trans = _control_char_trans_newline if keep_spacing else _control_char_trans\n    return text.translate(trans)",
+            "    if text.isascii():\n        return text\n    trans = _control_char_trans_newline if keep_spacing else _control_char_trans\n    return text.translate(trans)", "R49.2", SU),
+    _unwrap("translate-only-first-line", "    trans = _control_char_trans_newline if keep_spacing else _control_char_trans\n    return text.translate(trans)",
+            "    trans = _control_char_trans_newline if keep_spacing else _control_char_trans\n    head, sep, tail = text.partition(\"\\n\")\n    return head.translate(trans) + sep + tail", "R49.2", SU),
     # R49.3
     _unwrap("prettify-no-escape", "    ret.text = strutils.escape_control_characters(ret.text)\n    return ret\n", "    return ret\n", "R49.3", CV),
     _unwrap("prettify-missing-content-echoes-header", "            text=\"Content is missing.\",\n", "            text=f\"Content is missing ({enc}).\",\n", "R49.3", CV),
